@@ -1,7 +1,7 @@
 /-
-  Model of /repo/c14n as it is now (after the three `fix:` commits: null-first
-  comma, negative floats, empty/truncated/trailing input rejected), function
-  by function.  Core Lean only; executable.
+  Model of /repo/c14n as it is now (after the four `fix:` commits: null-first
+  comma, negative floats, empty/truncated/trailing input rejected, a number
+  beyond 64 bits rejected), function by function.  Core Lean only; executable.
 
   Go                                 model
   ---------------------------------  -----------------------------------------
@@ -170,14 +170,17 @@ inductive Lit where
   | null
 deriving DecidableEq, Repr
 
-/-- tokenToValue: a number that is neither Int64 nor Float64 falls through to `Null{}` -/
-def tokenToValue : Lit → Atom
-  | .str s => .str s
-  | .int i => .int i
-  | .flt n ds e => .flt n ds e
-  | .bool b => .bool b
-  | .over => .null
-  | .null => .null
+/-- tokenToValue (a switch on the token's type); `none` = the error returned for a
+    number that is neither Int64 nor Float64 ("cannot be represented in 64 bits").
+    The `default:` branch (a token of another type: also an error) cannot be reached
+    with what `json.Decoder.Token` yields, so `Lit` has no constructor for it. -/
+def tokenToValue : Lit → Option Atom
+  | .str s => some (.str s)
+  | .int i => some (.int i)
+  | .flt n ds e => some (.flt n ds e)
+  | .bool b => some (.bool b)
+  | .over => none
+  | .null => some .null
 
 /-- the raw token stream -/
 inductive RTok where
@@ -186,10 +189,12 @@ inductive RTok where
 deriving DecidableEq, Repr
 
 /-- the token stream with tokenToValue applied to every non-delimiter (handleNextToken does
-    this on the spot; it is pointwise, so it is done up front here) -/
+    this on the spot; it is pointwise, so it is done up front here): `val a` where
+    tokenToValue returned the value `a`, `bad` where it returned an error -/
 inductive GTok where
   | lbrace | rbrace | lbrack | rbrack
   | val (a : Atom)
+  | bad
 deriving DecidableEq, Repr
 
 def cook : RTok → GTok
@@ -197,7 +202,9 @@ def cook : RTok → GTok
   | .rbrace => .rbrace
   | .lbrack => .lbrack
   | .rbrack => .rbrack
-  | .lit l => .val (tokenToValue l)
+  | .lit l => match tokenToValue l with
+    | some a => .val a
+    | none => .bad
 
 /-- result of handleNextToken & co.: an error, Go's `(nil, nil)` ("no more
     left"), a value, or a tree that contains a nil Canonicalable -/
@@ -218,6 +225,7 @@ def hNext : Nat → List GTok → R J
     | .lbrack => hArr f ts []
     | .rbrace | .rbrack => .done ts
     | .val a => .ok (.atom a) ts
+    | .bad => .err                    -- `return tokenToValue(t)` with its error
 /-- handleObject (attributes accumulated in reverse) -/
 def hObj : Nat → List GTok → List (Str × J) → R J
   | 0, _, _ => .err
@@ -316,6 +324,7 @@ def decStep (S : List Ctx) : GTok → Option (List Ctx)
   | .val a => match S, a with
     | .objKey :: S', .str _ => some (.objVal :: S')
     | _, _ => if valueAllowed S then some (afterValue S) else none
+  | .bad => if valueAllowed S then some (afterValue S) else none   -- a number literal: a value, never a key
 
 def decRun : List Ctx → List GTok → Option (List Ctx)
   | S, [] => some S
@@ -338,6 +347,29 @@ def gtoksL : JL → List GTok
 def gtoksK : KL → List GTok
   | .nil => []
   | .cons k v r => .val (.str k) :: (gtoks v ++ gtoksK r)
+end
+
+/-- the literal the decoder yields for a leaf -/
+def litOf : Atom → Lit
+  | .null => .null
+  | .bool b => .bool b
+  | .int i => .int i
+  | .flt n ds e => .flt n ds e
+  | .str s => .str s
+
+/- the raw tokens the decoder yields for a value (no number beyond float64 among them:
+   such a number is not a value of `J`) -/
+mutual
+def rtoks : J → List RTok
+  | .atom a => [.lit (litOf a)]
+  | .arr xs => .lbrack :: (rtoksL xs ++ [.rbrack])
+  | .obj kvs => .lbrace :: (rtoksK kvs ++ [.rbrace])
+def rtoksL : JL → List RTok
+  | .nil => []
+  | .cons x xs => rtoks x ++ rtoksL xs
+def rtoksK : KL → List RTok
+  | .nil => []
+  | .cons k v r => .lit (.str k) :: (rtoks v ++ rtoksK r)
 end
 
 /-! ## CanonicalJSON on a value -/
